@@ -104,6 +104,68 @@ def mut_args_index(src):
     return replace_once(src, "index_stack_value = value.args[0]", "index_stack_value = value.args[1]")
 
 
+# ---- twin audit (same-typed names written for each other, swapped argument order / tuple components)
+def sub_branch(src, edit):
+    """apply `edit` to the text of the Sub branch of _get_index"""
+    a = src.index("    if isinstance(index_stack_value.instruction, Sub):\n")
+    b = src.index("    if isinstance(index_stack_value.instruction, Add):\n")
+    new = edit(src[a:b])
+    if new == src[a:b]:
+        raise RuntimeError("mutation anchor not found in the Sub branch")
+    return src[:a] + new + src[b:]
+
+
+def mut_sub_operands(src):
+    """(t1) Sub branch: the roles of arg1 / arg2 exchanged (`c - GroupIndex` read as an offset)"""
+    return sub_branch(src, lambda t: t.replace("arg1", "\0").replace("arg2", "arg1").replace("\0", "arg2").replace("arg2, arg1 = index_stack_value.args[0]", "arg1, arg2 = index_stack_value.args[0]"))
+
+
+def mut_add_offset_arg(src):
+    """(t2) Add branch: offset_arg is arg1 first, arg2 in the fallback"""
+    src = replace_once(src, "        offset_arg = arg2\n", "        offset_arg = arg1\n")
+    return replace_once(src, "            offset_arg = arg1\n", "            offset_arg = arg2\n")
+
+
+def mut_add_absolute(src):
+    """(t3) Add branch returns IndexType.Absolute for an offset (twin constructors)"""
+    return replace_once(
+        src,
+        "            offset = int_value\n            return TransactionIndex(IndexType.Relative, offset)\n",
+        "            offset = int_value\n            return TransactionIndex(IndexType.Absolute, offset)\n",
+    )
+
+
+def mut_gtxn_relative(src):
+    """(t4) get_index_and_field: gtxn i is a relative index"""
+    return replace_once(src, "TransactionIndex(IndexType.Absolute, value.instruction.idx)", "TransactionIndex(IndexType.Relative, value.instruction.idx)")
+
+
+def mut_key_abs_relative(src):
+    """(t5, key_helpers.py) is_value_matches_key: absolute keys ask for a Relative index and vice versa"""
+    src = replace_once(src, "        if value_index.index_type != IndexType.Absolute:\n", "        if value_index.index_type != IndexType.RELATIVE_TMP:\n")
+    src = replace_once(src, "        if value_index.index_type != IndexType.Relative:\n", "        if value_index.index_type != IndexType.Absolute:\n")
+    return replace_once(src, "IndexType.RELATIVE_TMP", "IndexType.Relative")
+
+
+def mut_sub_args_swapped(src):
+    """(a1) Sub branch: arg1, arg2 = args[1], args[0]"""
+    return sub_branch(src, lambda t: t.replace("arg1, arg2 = index_stack_value.args[0], index_stack_value.args[1]", "arg1, arg2 = index_stack_value.args[1], index_stack_value.args[0]"))
+
+
+def mut_int_pair_swapped(src):
+    """(a2) the pair of is_int_push_ins unpacked the other way round"""
+    return replace_once(
+        src,
+        "    pushes_int, int_value = is_int_push_ins(index_stack_value.instruction)\n",
+        "    int_value, pushes_int = is_int_push_ins(index_stack_value.instruction)\n",
+    )
+
+
+def mut_key_pair_swapped(src):
+    """(a3, key_helpers.py) the (index, base key) pair of an absolute key unpacked the other way round"""
+    return replace_once(src, "        idx, _ = get_ind_base_for_gtxn_type_keys(analysis_key)\n", "        _, idx = get_ind_base_for_gtxn_type_keys(analysis_key)\n")
+
+
 MUTATIONS = [
     ("(i) Gtxn/Gtxns accepted in GroupIndex test", GH, mut_gtxn_groupindex, True),
     ("(ii) Sub and Add branches merged", GH, mut_merge_sub_add, True),
@@ -112,6 +174,14 @@ MUTATIONS = [
     ("(x2) while statement", GH, mut_loop, False),
     ("(x3) absolute key prefix edited", KH, mut_key_prefix, False),
     ("(x4) gtxns index read from args[1]", GH, mut_args_index, False),
+    ("(t1) TWIN Sub: roles of arg1 / arg2 exchanged", GH, mut_sub_operands, False),
+    ("(t2) TWIN Add: offset_arg arg1 first, arg2 fallback", GH, mut_add_offset_arg, False),
+    ("(t3) TWIN Add: IndexType.Absolute for Relative", GH, mut_add_absolute, False),
+    ("(t4) TWIN gtxn i: IndexType.Relative for Absolute", GH, mut_gtxn_relative, False),
+    ("(t5) TWIN key kinds ask for the other index type", KH, mut_key_abs_relative, False),
+    ("(a1) PAIR Sub: arg1, arg2 = args[1], args[0]", GH, mut_sub_args_swapped, False),
+    ("(a2) PAIR int_value, pushes_int = is_int_push_ins(..)", GH, mut_int_pair_swapped, False),
+    ("(a3) PAIR _, idx = get_ind_base_for_gtxn_type_keys(..)", KH, mut_key_pair_swapped, False),
 ]
 
 
